@@ -820,3 +820,33 @@ package stack
 //@   loop 1: invariant forall k string :: dom(gopaths, k) ==> !UnderGopath(c.RemoteSrcPath, k)
 //@   loop 1: invariant !found ==> forall k string :: visited[k] ==> !UnderDir(c.RemoteSrcPath, k)
 //@   loop 1: invariant found ==> dom(localgomods, mod) && modPkg == localgomods[mod] && UnderDir(c.RemoteSrcPath, mod) && (forall k string :: visited[k] && UnderDir(c.RemoteSrcPath, k) ==> len(k) <= len(mod))
+
+// ---- context.go: getFiles (C06, C18) -------------------------------------------
+// The result is the strictly ascending list of exactly the source paths of the
+// frames: that determines it as a sequence, whatever order the map is ranged in.
+//@ func getFiles
+//@   option det=the keys collected in map order are sorted, and the keys of a map are distinct, so the result is the strictly ascending enumeration of the key set
+//@   requires forall g :: 0 <= g && g < len(goroutines) ==> goroutines[g] != nil
+//@   modifies nothing
+//@   gvar wg [string]int
+//@   gvar wc [string]int
+//@   gvar at [string]int
+//@   update after-mapupdate#1: wg[c.RemoteSrcPath] := rangeindex#1; wc[c.RemoteSrcPath] := rangeindex#2
+//@   update after-call append#1: at[f] := len(out)
+//@   update after-call sort.Strings#1: at := lambda k :: sperm[at[k]]
+//@   ensures [filesStrictlyAscending C06 C18] forall i, j :: 0 <= i && i < j && j < len(result) ==> result[i] < result[j]
+//@   ensures [filesComplete C06 C18] forall g, c :: 0 <= g && g < len(goroutines) && 0 <= c && c < len(goroutines[g].Stack.Calls) ==> 0 <= at[goroutines[g].Stack.Calls[c].RemoteSrcPath] && at[goroutines[g].Stack.Calls[c].RemoteSrcPath] < len(result) && result[at[goroutines[g].Stack.Calls[c].RemoteSrcPath]] == goroutines[g].Stack.Calls[c].RemoteSrcPath
+//@   ensures [filesSound C06 C18] forall i :: 0 <= i && i < len(result) ==> 0 <= wg[result[i]] && wg[result[i]] < len(goroutines) && 0 <= wc[result[i]] && wc[result[i]] < len(goroutines[wg[result[i]]].Stack.Calls) && goroutines[wg[result[i]]].Stack.Calls[wc[result[i]]].RemoteSrcPath == result[i]
+//@   loop 0: invariant -1 <= rangeindex && files != nil && fresh(files) && len(files) >= 0 && (len(files) == 0 ==> forall k string :: !dom(files, k))
+//@   loop 0: invariant forall g, c :: 0 <= g && g <= rangeindex && 0 <= c && c < len(goroutines[g].Stack.Calls) ==> dom(files, goroutines[g].Stack.Calls[c].RemoteSrcPath)
+//@   loop 0: invariant [witnesses] forall k string :: dom(files, k) ==> 0 <= wg[k] && wg[k] < len(goroutines) && 0 <= wc[k] && wc[k] < len(goroutines[wg[k]].Stack.Calls) && goroutines[wg[k]].Stack.Calls[wc[k]].RemoteSrcPath == k
+//@   loop 0: decreases len(goroutines) - rangeindex
+//@   loop 1: invariant 0 <= rangeindex#1 && rangeindex#1 < len(goroutines) && -1 <= rangeindex#2 && files != nil && fresh(files) && len(files) >= 0 && (len(files) == 0 ==> forall k string :: !dom(files, k))
+//@   loop 1: invariant forall g, c :: 0 <= g && g < rangeindex#1 && 0 <= c && c < len(goroutines[g].Stack.Calls) ==> dom(files, goroutines[g].Stack.Calls[c].RemoteSrcPath)
+//@   loop 1: invariant forall c :: 0 <= c && c <= rangeindex#2 ==> dom(files, g.Stack.Calls[c].RemoteSrcPath)
+//@   loop 1: invariant g == goroutines[rangeindex#1]
+//@   loop 1: invariant [witnesses1] forall k string :: dom(files, k) ==> 0 <= wg[k] && wg[k] < len(goroutines) && 0 <= wc[k] && wc[k] < len(goroutines[wg[k]].Stack.Calls) && goroutines[wg[k]].Stack.Calls[wc[k]].RemoteSrcPath == k
+//@   loop 1: decreases len(g.Stack.Calls) - rangeindex#2
+//@   loop 2: invariant fresh(out) && (forall i :: 0 <= i && i < len(out) ==> visited[out[i]] && at[out[i]] == i)
+//@   loop 2: invariant forall k string :: visited[k] ==> 0 <= at[k] && at[k] < len(out) && out[at[k]] == k
+//@   loop 2: invariant forall k string :: visited[k] ==> dom(files, k)
